@@ -590,6 +590,13 @@ func (w *runWorld) drawRequest(client int) *reqState {
 		r.numPredict = 1
 	case 2:
 		r.numPredict = 2 + d("np", 4)
+	case 3:
+		// now and then a generation longer than the response channel is deep (100): with a
+		// slow reader the run loop meets a full channel, also when the sequence ends
+		r.numPredict = 1 + d("np", 40)
+		if d("long", 3) == 0 {
+			r.numPredict = 101 + d("np-long", 60)
+		}
 	default:
 		r.numPredict = 1 + d("np", 40)
 	}
